@@ -657,6 +657,10 @@ def val_eq(a: V, b: V):
         a = coerce(a, INT)
     if isinstance(b, VBool) and isinstance(a, VInt):
         b = coerce(b, INT)
+    if isinstance(a, VBV) and isinstance(b, VInt) and b.concrete() is not None:
+        b = VBV(z3.BitVecVal(b.concrete(), a.bits), a.bits)
+    if isinstance(b, VBV) and isinstance(a, VInt) and a.concrete() is not None:
+        a = VBV(z3.BitVecVal(a.concrete(), b.bits), b.bits)
     if isinstance(a, VReal) and isinstance(b, (VInt, VBool)):
         b = coerce(coerce(b, INT), REAL)
     if isinstance(b, VReal) and isinstance(a, (VInt, VBool)):
